@@ -445,6 +445,80 @@ def opCliStatus (req : Json) : Except String Json := do
     | _ => throw "bad outcome"
   pure (okJson (.num (exitStatus tool outcome)))
 
+def outcomeOf (j : Json) : Except String CliOutcome :=
+  match j with
+  | .str "usage" => pure CliOutcome.usageError | .str "success" => pure CliOutcome.success
+  | .str "load" => pure CliOutcome.loadFailure | .str "sig" => pure CliOutcome.sigCheckFailed
+  | .str "fail" => pure CliOutcome.libFailure | .str "differ" => pure CliOutcome.differences
+  | _ => throw "bad outcome"
+
+/-- JSON `null` = absent, string = given. -/
+def optStrOf (j : Json) : Except String (Option Str) :=
+  match j with
+  | .null => pure none
+  | .str s => pure (some s.toList)
+  | _ => throw "expected string or null"
+
+def optListOf (j : Json) : Except String (Option (List Str)) :=
+  match j with
+  | .null => pure none
+  | .arr _ => do pure (some (← strList j))
+  | _ => throw "expected list or null"
+
+def boolOf (j : Json) : Except String Bool :=
+  match j with
+  | .bool b => pure b
+  | _ => throw "expected bool"
+
+def keyArgsOf (a : Json) : Except String KeyArgs := do
+  let gpg ← match (← field a "gpg") with
+    | .null => pure GpgArg.absent
+    | .bool true => pure GpgArg.flag
+    | .str s => pure (GpgArg.value s.toList)
+    | _ => throw "bad gpg"
+  pure { key := ← optStrOf (← field a "key"), gpg := gpg, signingKey := ← optStrOf (← field a "signing_key") }
+
+/-- The front end's own checks followed by the status: `args` is what argparse left in the
+namespace (or `argparse_ok: false`), `work` what the operation itself does once the checks passed. -/
+def opCliMain (req : Json) : Except String Json := do
+  let work ← outcomeOf (← field req "work")
+  let a ← field req "args"
+  let ok ← boolOf (← field a "argparse_ok")
+  let tool ← toStr (← field req "tool")
+  let dummyKeys : KeyArgs := { key := none, gpg := .absent, signingKey := none }
+  if tool = lit "run" then
+    if !ok then pure (okJson (.num (runStatus { argparseOk := false, keys := dummyKeys, noCommand := false, linkCmd := [] } work)))
+    else
+      let ra : RunArgs := { argparseOk := true, keys := ← keyArgsOf a, noCommand := ← boolOf (← field a "no_command"),
+                            linkCmd := ← strList (← field a "link_cmd") }
+      pure (okJson (.num (runStatus ra work)))
+  else if tool = lit "record_start" ∨ tool = lit "record_stop" then
+    let t := if tool = lit "record_start" then Tool.recordStart else Tool.recordStop
+    if !ok then pure (okJson (.num (recordStatus t { argparseOk := false, keys := dummyKeys } work)))
+    else pure (okJson (.num (recordStatus t { argparseOk := true, keys := ← keyArgsOf a } work)))
+  else if tool = lit "verify" then
+    if !ok then pure (okJson (.num (verifyStatus { argparseOk := false, layoutKeys := none, gpg := none, verificationKeys := none } work)))
+    else
+      let va : VerifyArgs := { argparseOk := true, layoutKeys := ← optListOf (← field a "layout_keys"),
+                               gpg := ← optListOf (← field a "gpg"), verificationKeys := ← optListOf (← field a "verification_keys") }
+      pure (okJson (.num (verifyStatus va work)))
+  else if tool = lit "sign" then
+    let file ← match (← field req "file") with
+      | .str "unloadable" => pure SignFile.unloadable | .str "link" => pure SignFile.link | .str "layout" => pure SignFile.layout
+      | _ => throw "bad file"
+    if !ok then
+      pure (okJson (.num (signStatus { argparseOk := false, verify := false, append := false, output := none, key := none, gpg := none } file work)))
+    else
+      let sa : SignArgs := { argparseOk := true, verify := ← boolOf (← field a "verify"), append := ← boolOf (← field a "append"),
+                             output := ← optStrOf (← field a "output"), key := ← optListOf (← field a "key"),
+                             gpg := ← optListOf (← field a "gpg") }
+      pure (okJson (.num (signStatus sa file work)))
+  else if tool = lit "mock" then
+    pure (okJson (.num (exitStatus .mock (frontOutcome ok work))))
+  else if tool = lit "match_products" then
+    pure (okJson (.num (exitStatus .matchProducts (frontOutcome ok work))))
+  else throw "bad tool"
+
 def dispatch (op : String) (req : Json) : Except String Json :=
   match op with
   | "ping" => pure (okJson (.str "pong"))
@@ -465,6 +539,7 @@ def dispatch (op : String) (req : Json) : Except String Json :=
   | "effects" => opEffects req
   | "stop_crash" => opStopCrash req
   | "cli_status" => opCliStatus req
+  | "cli_main" => opCliMain req
   | _ => throw s!"unknown op {op}"
 
 def handle (line : String) : String :=
